@@ -392,6 +392,8 @@ __CPROVER_requires(g_s->contexts.ll_offset == offsetof(sub0_ctx, node) && VP_LIS
 __CPROVER_requires(g_s->num_contexts >= 1 && g_s->num_contexts < 1000000 && g_s->recv_buf_len >= 1 && g_s->recv_buf_len <= 8192)
 /* model artefact: the list dispatcher (modules/sub/lists_post.h) recognises aio wait lists by their member offset */
 __CPROVER_requires(IC->topics.ll_offset != VP_AIO_OFF)
+/* the context block comes zeroed from nni_zalloc (nni_ctx_open, nni_sock_create): its list node is inactive */
+__CPROVER_requires(IC->node.ln_next == NULL && IC->node.ln_prev == NULL)
 __CPROVER_assigns(*IC, g_s->contexts.ll_head, g_s->master.node, g_s->num_contexts, VP_SYNC_GHOSTS, g_free_calls, g_alloc_ok, g_alloc_fail)
 __CPROVER_ensures(VP_NO_LOCK_HELD && IC->sock == g_s && IC->prefer_new == g_s->prefer_new)
 __CPROVER_ensures(IC->topics.ll_offset == offsetof(sub0_topic, node) && IC->topics.ll_head.ln_next == &IC->topics.ll_head && IC->topics.ll_head.ln_prev == &IC->topics.ll_head)
